@@ -17,12 +17,11 @@ import random
 from .common import cbool, clist, copt, cstr, cZ
 
 PROP = "C04"
-SHARD = 40
+SHARD = 8
 _IMP = "From Coq Require Import ZArith String.\nFrom SS Require Import Base M_Slice."
 KINDS = {
     "main": dict(imports=_IMP, type="slice_case", mismatch="mismatches", nontrivial="count_nontrivial"),
     "pyslice": dict(imports=_IMP, type="pyslice_case", mismatch="pyslice_mismatches", nontrivial=None),
-    "pydel": dict(imports=_IMP, type="pydel_case", mismatch="pydel_mismatches", nontrivial=None),
 }
 RULE = ("call chains of 1..7 links over {plain, generator, coroutine, stackscope-named modules, singledispatch wrapper} "
         "x greenlet splits (0..3 nested greenlets, incl. a never-started parent) x base {fresh thread, main thread}; "
@@ -101,17 +100,15 @@ def make_inputs(tier, seed):
                 yield dict(chain=ch, api="slice", base=base, sel={"mode": "part", "i": i, "of": parts}, **sig)
             yield dict(chain=ch, api="until", base=base, sel=None, **sig)
         yield dict(chain=ch, api="since", base=base, sel=None, **sig)
-    # python slicing
+    # python slicing: one case = (length, start) x every stop x every step, plus del l[start:stop]
     top = 4 if quick else 6
-    bounds = [None] + list(range(-8, 9))
     for n in range(top + 1):
-        for a in bounds:
-            for b in bounds:
-                if quick and (a is not None and b is not None) and (a + 2 * b + n) % 3:
-                    continue
-                for st in (-3, -2, -1, 1, 2, 3):
-                    yield {"_kind": "pyslice", "n": n, "a": a, "b": b, "st": st}
-                yield {"_kind": "pydel", "n": n, "a": a, "b": b}
+        for a in BOUNDS:
+            yield {"_kind": "pyslice", "n": n, "a": a}
+
+
+BOUNDS = [None] + list(range(-8, 9))
+STEPS = (-3, -2, -1, 1, 2, 3)
 
 
 # ------------------------------------------------------------------ running one case
@@ -167,12 +164,13 @@ def _ctx_class():
 def run_case(desc):
     kind = desc.get("_kind", "main")
     if kind == "pyslice":
-        l = list(range(desc["n"]))
-        return l[desc["a"]:desc["b"]:desc["st"]]
-    if kind == "pydel":
-        l = list(range(desc["n"]))
-        del l[desc["a"]:desc["b"]]
-        return l
+        rows = []
+        for b in BOUNDS:
+            l = list(range(desc["n"]))
+            sl = [[st, l[desc["a"]:b:st]] for st in STEPS]
+            del l[desc["a"]:b]
+            rows.append([b, sl, l])
+        return rows
     c = _ctx_class()(desc)
     c.run(desc["base"])
     internal = c.internal_chain()
@@ -237,11 +235,10 @@ def _res(r):
 def coq_case(desc, obs):
     kind = desc.get("_kind", "main")
     if kind == "pyslice":
-        return "(%s, %s, %s, %s, %s)" % (clist(str(i) for i in range(desc["n"])), _oz(desc["a"]), _oz(desc["b"]),
-                                         cZ(desc["st"]), clist(str(x) for x in obs))
-    if kind == "pydel":
-        return "(%s, %s, %s, %s)" % (clist(str(i) for i in range(desc["n"])), _oz(desc["a"]), _oz(desc["b"]),
-                                     clist(str(x) for x in obs))
+        nl = lambda l: clist(str(x) for x in l)
+        rows = clist("(%s, %s, %s)" % (_oz(b), clist("(%s, %s)" % (cZ(st), nl(r)) for st, r in sl), nl(d))
+                     for b, sl, d in obs)
+        return "(%s, %s,\n %s)" % (nl(range(desc["n"])), _oz(desc["a"]), rows)
     qs = clist("(%s, %s)" % (_api(q), _res(r)) for q, r in obs["queries"])
     return "(%s,\n %s)" % (_world(obs), qs)
 
